@@ -35,7 +35,15 @@ Inductive case :=
        (trace : list dec) (res : nat)
        (consumed : list nat) (out : option outcome) (joined : bool)
        (threads_left nworkers pull_thread nticks : nat)
-       (parks : list (nat * nat)).
+       (parks : list (nat * nat))
+(* a run scheduled at SOURCE-LINE granularity (every line of the bridge functions is a
+   scheduling point of its thread, timed waits may expire early): the gate trace is not
+   comparable with the gate-level macro-steps, so only the schedule-independent final
+   observation is compared with the model (nlines = line-level decisions taken) *)
+| CaseL (c : cfg) (gated : bool) (nlines : nat) (res : nat)
+        (consumed : list nat) (out : option outcome) (joined : bool)
+        (threads_left nworkers pull_thread : nat)
+        (parks : list (nat * nat)).
 
 (* ---- the model driven by thread-level decisions -------------------------- *)
 
@@ -127,6 +135,9 @@ Definition model_outcome (s : state) : option outcome :=
 Definition all_finished (s : state) : bool :=
   is_done s && match wp s with WNone | WDone => true | _ => false end.
 
+(* measure(init) rounds of W, D, C: finishes every configuration (bridge_terminates) *)
+Definition canon (c : cfg) : list choice := concat (repeat [W; D; C] (measure c (init c))).
+
 Definition agree (k : case) : bool :=
   match k with
   | Case c gated limit tr res obsd out joined nleft nw pt nt parks =>
@@ -141,6 +152,18 @@ Definition agree (k : case) : bool :=
       && Nat.eqb nt (ticks s)
       (* the source was asked once per element handed out and once more for its end / failure
          (pulls of lists and ranges are invisible to the harness) *)
+      && Nat.eqb (length parks) (if inline c && negb gated then 0 else S (pos s))
+  | CaseL c gated _ res obsd out joined nleft nw pt parks =>
+      (* the final observation does not depend on the schedule (bridge_complete, worker_joined):
+         compare with the model's run under the canonical fair schedule *)
+      let s := run c (canon c) in
+      is_done s && Nat.eqb res 0
+      && list_eqb Nat.eqb (Bridge.consumed s) obsd
+      && opt_eqb outcome_eqb (model_outcome s) out
+      && Bool.eqb (negb (worker_alive s)) joined
+      && Nat.eqb nleft 0
+      && Nat.eqb nw (if inline c then 0 else 1)
+      && Nat.eqb pt (if inline c then (if gated then 2 else 0) else 1)
       && Nat.eqb (length parks) (if inline c && negb gated then 0 else S (pos s))
   end.
 
@@ -169,9 +192,19 @@ Definition obs_of_case (k : case) : fobs :=
   match k with
   | Case c _ _ _ res obsd out joined nleft _ _ _ parks =>
       mkObs res obsd out joined nleft (starved_of parks)
+  | CaseL c _ _ res obsd out joined nleft _ _ parks =>
+      mkObs res obsd out joined nleft (starved_of parks)
   end.
 
-Definition cfg_of (k : case) : cfg := match k with Case c _ _ _ _ _ _ _ _ _ _ _ _ => c end.
+Definition cfg_of (k : case) : cfg :=
+  match k with Case c _ _ _ _ _ _ _ _ _ _ _ _ => c | CaseL c _ _ _ _ _ _ _ _ _ _ => c end.
+
+Definition parks_of (k : case) : list (nat * nat) :=
+  match k with Case _ _ _ _ _ _ _ _ _ _ _ _ p => p | CaseL _ _ _ _ _ _ _ _ _ _ p => p end.
+
+(* the observation with the ticker part blanked *)
+Definition unstarved (o : fobs) : fobs :=
+  mkObs (o_res o) (o_consumed o) (o_out o) (o_joined o) (o_left o) false.
 
 Definition ok (k : case) : bool := ok_obs (cfg_of k) (obs_of_case k).
 
@@ -194,6 +227,8 @@ Definition nontrivial (k : case) : bool :=
   match k with
   | Case c _ _ tr _ _ _ _ _ _ _ _ _ =>
       negb (inline c) && (1 <=? length (c_src c)) && interleaved tr false
+  | CaseL c _ nlines _ _ _ _ _ _ _ _ =>
+      negb (inline c) && (1 <=? length (c_src c)) && (4 <=? nlines)
   end.
 
 Definition verdict := verdict3 agree ok nontrivial.
